@@ -1,6 +1,7 @@
 import Cirbo.Proofs.EvalCor
 import Cirbo.Model.Checkers
 import Cirbo.Proofs.EvalProj
+import Cirbo.Proofs.LazyTerm
 import Cirbo.Proofs.GatesTT
 import Cirbo.Proofs.TseytinTemplates
 import Cirbo.Proofs.Convert
@@ -17,6 +18,7 @@ import Cirbo.Generated.SynthTables
 -- OBLIGATION: c01_den_storage_order
 -- OBLIGATION: c01_evaluate_full_circuit
 -- OBLIGATION: c01_evaluate_circuit
+-- OBLIGATION: c01_evaluate_circuit_returns
 -- OBLIGATION: c01_evaluate
 -- OBLIGATION: c01_evaluate_at
 -- OBLIGATION: c01_truth_table
@@ -26,7 +28,7 @@ import Cirbo.Generated.SynthTables
 -- OBLIGATION: c01_synthesis_codes_denote_bfun
 -- OBLIGATION: c01_pattern_simulation_denotes_bfun
 -- OBLIGATION: c01_bench_conversion_denotes_bfun
--- PARTIAL: evaluate, evaluate_at, get_truth_table and get_gates_truth_table are proved to be the stated projections of the denotation (whenever they return). evaluate_circuit (and the entry points built on it): partial correctness (termination within fuel by correspondence). The other gate-interpreting modules are tied to the same bfun by the five theorems below (CNF templates at every arity, the two regenerated truth-table code tables, pattern simulation bit by bit, every bench conversion step).
+-- PARTIAL: evaluate, evaluate_at, get_truth_table and get_gates_truth_table are proved to be the stated projections of the denotation (whenever they return). evaluate_circuit terminates and returns on every well-formed circuit (c01_evaluate_circuit_returns); the wrappers built on it are stated as whenever-they-return. The other gate-interpreting modules are tied to the same bfun by the five theorems below (CNF templates at every arity, the two regenerated truth-table code tables, pattern simulation bit by bit, every bench conversion step).
 -/
 namespace Cirbo
 open GateType V3
@@ -120,6 +122,24 @@ theorem c01_evaluate_circuit {c : Circuit} (h : WFU c) (b vB : Label → Bool) (
     · left; rw [h', heq g hg]
     · right; exact h'
 
+/-- **`evaluate_circuit` returns**: on every well-formed circuit, for every total input assignment and
+every list of existing requested outputs, the explicit-stack loop terminates (its step budget is never
+exhausted) and no exception is raised; so the previous theorem speaks about every call. -/
+theorem c01_evaluate_circuit_returns {c : Circuit} (h : WFU c) (b : Label → Bool)
+    (outs : Option (List Label)) (houts : ∀ o ∈ outs.getD c.outputs, o ∈ c.labels) :
+    ∃ d, evalLazy c (asgOfBools c b) outs = .ok d := by
+  obtain ⟨e, _, hv, _⟩ := evalFull_spec h (asgOfBools c b)
+  have hasg : ∀ g ∈ c.gates, g.ty ≠ INPUT → (asgOfBools c b).get? g.label = none := by
+    intro g hg hty
+    unfold asgOfBools; rw [get?_map_pair]
+    have : g.label ∉ c.inputs := by
+      intro hin
+      obtain ⟨g', hg', hgl', hty'⟩ := (h.inputsOK g.label).mp hin
+      have : g' = g := gate_unique h.nodup hg' hg hgl'
+      subst this; exact hty hty'
+    simp [this]
+  exact evalLazy_ok h.toWF _ outs hasg houts hv
+
 /-! Non-vacuity: `WFU` is satisfiable and the theorems speak about real runs. -/
 def exTiny01 : Circuit :=
   { gates := [⟨"a", INPUT, []⟩, ⟨"n", NOT, ["a"]⟩], inputs := ["a"], outputs := ["n"],
@@ -194,6 +214,7 @@ theorem c01_bench_conversion_denotes_bfun {c c1 : Circuit} (hnl : NL c) {g : Gat
 #print axioms c01_den_storage_order
 #print axioms c01_evaluate_full_circuit
 #print axioms c01_evaluate_circuit
+#print axioms c01_evaluate_circuit_returns
 #print axioms c01_evaluate
 #print axioms c01_evaluate_at
 #print axioms c01_truth_table
